@@ -296,6 +296,26 @@ class C32(core.Check):
             dict(self.mk(1, [10, 10, 18, 15, 0], [10, 10], stripes, [0, 0], 2, 3, kind='view'),
                  coord={'kind': 'window', 'w': [-10, -10, 10, 10, 1], 'f': [-10, 9]}),
         ]
+        # last referenced point: two boxes; PAINT on the border of box A paints nothing but moves the last point,
+        # PAINT STEP then starts inside A (seed C32e: the no-op PAINT left the last point in the middle)
+        boxes = [[0] * 24 for _ in range(10)]
+        for bx0_, bx1_ in ((1, 8), (13, 21)):
+            for x in range(bx0_, bx1_ + 1):
+                boxes[1][x] = boxes[7][x] = 1
+            for y in range(1, 8):
+                boxes[y][bx0_] = boxes[y][bx1_] = 1
+        hc = lambda hist, view=[30, 40, 53, 49, 0]: dict(
+            self.mk(1, view, [30, 40], boxes, [0, 0], hist[-1]['c'], hist[-1]['b'], kind='viewscreen' if view[4] else 'view'),
+            hist=hist)
+        S = lambda step, x, y, c=2, b=1: {'step': step, 'p': [x, y], 'c': c, 'b': b}
+        cases += [
+            hc([S(0, 1, 1), S(1, 3, 3)]),                       # border seed, then STEP into box A
+            hc([S(0, 4, 4), S(1, 11, 0, 3)]),                   # real fill of A, then STEP into box B
+            hc([S(0, 40, 3), S(1, 3, 0)]),                      # seed outside the viewport: last point stays
+            hc([S(1, 1, -4), S(1, 2, 2, 3), S(1, -14, 0, 2)]),  # STEP onto B's wall, STEP inside B, STEP into A
+            hc([S(0, 31, 41), S(1, 3, 3)], view=[30, 40, 53, 49, 1]),
+            hc([S(0, 4, 4, 300), S(1, 0, 0)]),                  # error in the first statement ends the line
+        ]
         # full screen without VIEW: a box with a gap, a bar already in the fill colour, seed inside the box
         cases.append({'scr': 1, 'view': None, 'rect': [0, 0], 'rows': [[0]],
                       'rects': [[40, 30, 100, 1, 3], [40, 90, 100, 1, 3], [40, 30, 1, 61, 3], [139, 30, 1, 61, 3],
@@ -511,6 +531,37 @@ class C32(core.Check):
                                            rng.randrange(min(b0, b1) - 3, max(b0, b1) + 4)]}
                 case['seed'] = self.conv_seed(case)
                 bump('seed', 'via-' + case['coord']['kind'])
+            if (kind != 'walled' and case.get('tile') is None and not case.get('coord') and rng.random() < 0.2):
+                # history: a first PAINT (often a no-op: seed on a border pixel / outside the viewport), then
+                # PAINT STEP from wherever the last referenced point is now
+                mid = self.mid_point(case)
+                wl_ = [(x, y) for y in range(h) for x in range(w) if p[y][x] == border]
+                fr_ = [(x, y) for y in range(h) for x in range(w) if p[y][x] != border]
+                hst = []
+                lp = list(mid)
+                nst = rng.choice([2, 2, 2, 3])
+                for k in range(nst):
+                    q = rng.random()
+                    if k == nst - 1 or q < 0.35:
+                        tgt = rng.choice(fr_) if fr_ else (0, 0)
+                    elif q < 0.8:
+                        tgt = rng.choice(wl_) if wl_ else (0, 0)
+                    else:
+                        tgt = rng.choice([(-1, rng.randrange(h)), (w, rng.randrange(h)), (rng.randrange(w), -1),
+                                          (rng.randrange(w), h), (w + 30, h + 30)])
+                    sd = [ix + tgt[0], iy + tgt[1]]
+                    step = 1 if (k == nst - 1 or rng.random() < 0.3) else 0
+                    if k == nst - 1 and rng.random() < 0.25:
+                        sd = [lp[0] + rng.randrange(-3, 4), lp[1] + rng.randrange(-3, 4)]
+                    pt = [sd[0] - lp[0], sd[1] - lp[1]] if step else sd
+                    cc = rng.choice([a for a in range(na) if a != border] or [0])
+                    hst.append({'step': step, 'p': pt, 'c': cc, 'b': border})
+                    if ix <= sd[0] < ix + w and iy <= sd[1] < iy + h:
+                        lp = sd
+                case['hist'] = hst
+                case['c'], case['b'] = hst[-1]['c'], hst[-1]['b']
+                case['seed'] = self.hist_seeds(case)[-1]
+                bump('seed', 'history-%d' % nst)
             out.append(case)
             bump('mode', scr)
             bump('kind', kind)
@@ -634,8 +685,21 @@ class C32(core.Check):
     def chrs(bs):
         return '+'.join('CHR$(%d)' % b for b in bs) if bs else '""'
 
+    @staticmethod
+    def stmt_text(st):
+        t = 'PAINT %s(%d,%d)' % ('STEP ' if st['step'] else '', st['p'][0], st['p'][1])
+        if st['c'] is not None:
+            t += ',%d' % st['c']
+        if st['b'] is not None:
+            t += (',' if st['c'] is not None else ',,') + '%d' % st['b']
+        return t
+
     @classmethod
     def program(cls, case):
+        if case.get('hist'):
+            # several PAINTs in one line: the first error ends the line (RESUME 5)
+            return '1 E=0:F=0:ON ERROR GOTO 9\r3 %s\r5 F=1:END\r9 E=ERR:RESUME 5\r' % ':'.join(
+                cls.stmt_text(st) for st in case['hist'])
         co = case.get('coord')
         if co and co['kind'] == 'step':
             st = 'PAINT STEP (%d,%d)' % tuple(co['d'])
@@ -692,6 +756,32 @@ class C32(core.Check):
         offy = 0. - fy0 * scaley
         fx, fy = co['f']
         return [int(round(offx + (0. + fx) * scalex)), int(round(offy + (0. + fy) * scaley))]
+
+    @classmethod
+    def mid_point(cls, case):
+        """last referenced point right after VIEW / VIEW SCREEN / no view (reference, viewport coordinates)"""
+        view = case['view']
+        sw, sh, _ = MODES[case['scr']]
+        if view is None:
+            return [(sw - 1) // 2 + 1, (sh - 1) // 2 + 1]
+        x0, y0, x1, y1, absolute = view
+        ox, oy = (x0, y0) if absolute else (0, 0)
+        return [(x1 - x0) // 2 + 1 + ox, (y1 - y0) // 2 + 1 + oy]
+
+    @classmethod
+    def hist_seeds(cls, case):
+        """reference reading of the last-point rule, independent of the implementation and of the Coq model:
+        the physical seed of every statement of the history.  A PAINT whose seed is inside the viewport moves the
+        last point (also when it paints nothing), one outside leaves it."""
+        (bx0, by0, bx1, by1), _ = cls.geometry(case)
+        lp = cls.mid_point(case)
+        seeds = []
+        for st in case['hist']:
+            sd = [lp[0] + st['p'][0], lp[1] + st['p'][1]] if st['step'] else list(st['p'])
+            seeds.append(sd)
+            if bx0 <= sd[0] <= bx1 and by0 <= sd[1] <= by1:
+                lp = sd
+        return seeds
 
     def tile_rows(self, case):
         """unpacked tile and background row as the mode's build_tile returns them (taken as given)"""
@@ -785,6 +875,15 @@ class C32(core.Check):
                     % (opt(case['c']), opt(case['b'])))
         na = MODES[scr][2]
         fg = case['fg'] if case.get('fg') is not None else DEFAULT_FG[scr]
+        if case.get('hist'):
+            (bx0, by0, bx1, by1), (ox, oy) = self.geometry(case)
+            rows = '[' + ';'.join(core.zl(r) for r in case['rows']) + ']'
+            mx, my = self.mid_point(case)
+            stmts = '[' + ';'.join('mkStmt %s %s %s %s %s' % ('true' if st['step'] else 'false', z(st['p'][0]),
+                                                              z(st['p'][1]), opt(st['c']), opt(st['b']))
+                                   for st in case['hist']) + ']'
+            return ('(enc_paint (rmap fst (paint_hist false %d %d (mkBounds %s %s %s %s) (mkBitmap %s %s %s, (%s, %s)) %s)) '
+                    '++ [0])' % (na, fg, z(bx0), z(by0), z(bx1), z(by1), z(ox), z(oy), rows, z(mx), z(my), stmts))
         if case.get('kind') == 'full':
             sw, sh, _ = MODES[scr]
             rects = '[' + ';'.join('(%d,%d,%d,%d,%d)' % tuple(r) for r in case['rects']) + ']'
@@ -812,6 +911,8 @@ class C32(core.Check):
         sw, sh, na = MODES[scr]
         if case.get('kind') == 'full':
             return self.oracle_full(case, out)
+        if case.get('hist'):
+            return self.oracle_hist(case, out)
         rows = case['rows']
         rh, rw = len(rows), len(rows[0])
         if out[0] == 3:
@@ -874,6 +975,65 @@ class C32(core.Check):
                         return 'pixel (%d,%d) changed to %d, not to the fill/tile attribute %d' % (x, y, a1, want(x, y))
                 if inreg and plain and not prefilled and a1 != want(x, y):
                     return 'region pixel (%d,%d) not filled (no region pixel showed the fill/tile beforehand)' % (x, y)
+        return None
+
+    def oracle_hist(self, case, out):
+        """several PAINTs: the start point of each is read off the last-point rule (hist_seeds), the picture before
+        the last one is the reference fill of the earlier ones (only when that is determined by the property)"""
+        scr = case['scr']
+        sw, sh, na = MODES[scr]
+        if out[0] == 3:
+            return 'PAINT did not terminate'
+        if out[0] != 0:
+            return ('%d pixels changed although PAINT raised an error' % out[-1]) if out[-1] else None
+        rows = [list(r) for r in case['rows']]
+        rh, rw = len(rows), len(rows[0])
+        after = out[1:-1]
+        if len(after) != rh * rw:
+            return 'malformed output'
+        if out[-1] != 0:
+            return '%d pixels outside the compared rectangle changed' % out[-1]
+        rx, ry = case['rect']
+        x0, y0, x1, y1, absolute = case['view']
+        bounds = (x0, y0, x1, y1)
+        fg = case['fg'] if case.get('fg') is not None else DEFAULT_FG[scr]
+        seeds = self.hist_seeds(case)
+        n = len(case['hist'])
+        for k, (st, sd) in enumerate(zip(case['hist'], seeds)):
+            c, b = st['c'], st['b']
+            if any(v is not None and not 0 <= v <= 255 for v in (c, b)) or any(abs(v) > 32767 for v in sd):
+                return None     # an error was due: compared with the model only
+            fill = ref_attr(na, fg, -1 if c is None else c)
+            border = ref_attr(na, fg, (-1 if c is None else c) if b is None else b)
+            seed = tuple(sd) if absolute else (sd[0] + x0, sd[1] + y0)
+
+            def cur(x, y):
+                if rx <= x < rx + rw and ry <= y < ry + rh:
+                    return rows[y - ry][x - rx]
+                return 0
+            region = bfs_region(cur, bounds, seed, border)
+            if any(not (rx <= x < rx + rw and ry <= y < ry + rh) for x, y in region):
+                return 'generator error: region leaves the compared rectangle'
+            prefilled = any(cur(x, y) == fill for x, y in region)
+            if k < n - 1:
+                if prefilled:
+                    return None     # the intermediate picture is not determined by the property
+                for x, y in region:
+                    rows[y - ry][x - rx] = fill
+                continue
+            for j in range(rh):
+                for i in range(rw):
+                    a0, a1 = rows[j][i], after[j * rw + i]
+                    x, y = rx + i, ry + j
+                    inreg = (x, y) in region
+                    if a1 != a0:
+                        if not inreg:
+                            return ('pixel (%d,%d) outside the region of the start point %s of statement %d changed '
+                                    '%d -> %d' % (x, y, sd, k + 1, a0, a1))
+                        if a1 != fill:
+                            return 'pixel (%d,%d) changed to %d, not to the fill attribute %d' % (x, y, a1, fill)
+                    if inreg and not prefilled and a1 != fill:
+                        return 'region pixel (%d,%d) of the start point %s of statement %d not filled' % (x, y, sd, k + 1)
         return None
 
     # ---------------------------------------------------------------- known finding K32a
